@@ -431,8 +431,7 @@ def run(ctx):
     depth_full = 3 if ctx.tier == "quick" else 5
     r1 = bfs.explore(ctx, FULL_MENU, step, depth_full)
     results = {"full": r1}
-    if ctx.tier != "quick":
-        results["reduced"] = bfs.explore(ctx, REDUCED_MENU, step, 7)
+    results["reduced"] = bfs.explore(ctx, REDUCED_MENU, step, 5 if ctx.tier == "quick" else 7)
     # allowed-later vs constructor: all add-sequences up to 3 over the pool x lists
     adds = [a for n in (1, 2, 3) for a in itertools.product(("r0", "r1", "r2", "r3", "r4w", "r5"), repeat=n)]
     work = [(a, L) for a in adds for L in ALLOWED]
@@ -464,7 +463,7 @@ def run(ctx):
         "samples": [{"menu": k, "histories": r.samples} for k, r in results.items()],
         "evaluations": trans + nav + ncli,
         "distinct_nontrivial": states,
-        "rule": "BFS over operation histories on real Network objects: full 24-operation menu to depth 3 (quick) / 5 (thorough), reduced 10-operation menu to depth 7 (thorough); every transition executes the real method and is compared with the reference model; plus allowed-setter vs constructor on all add sequences <=3, plus `naunet extend` on 3 inputs x 8 flag sets x 3 remove-species values",
+        "rule": "BFS over operation histories on real Network objects: full 24-operation menu to depth 3 (quick) / 5 (thorough), reduced 10-operation menu to depth 5 (quick) / 7 (thorough); every transition executes the real method and is compared with the reference model; plus allowed-setter vs constructor on all add sequences <=3, plus `naunet extend` on 3 inputs x 8 flag sets x 3 remove-species values",
         "levels": {k: r.per_level for k, r in results.items()},
         "depth_completed": {k: r.depth_completed for k, r in results.items()},
         "disabled_transitions": sum(r.disabled for r in results.values()),
